@@ -34,16 +34,30 @@ type c11Case struct {
 	HTTP    bool      `json:"http"`
 	Clients [][]c12Op `json:"clients"`
 	Spin    []int     `json:"spin"`
+	// Check turns existence checking on: every client creates its location
+	// first, except the ghosts, whose location is never created (all their
+	// requests must fail, and must not disturb anybody).
+	Check bool   `json:"check,omitempty"`
+	Ghost []bool `json:"ghost,omitempty"`
+	// TTL of cached locations: 0 forever, 1 never cached, 2 one millisecond.
+	TTL int `json:"ttl,omitempty"`
 }
 
 func genC11(t *rapid.T) c11Case {
 	var c c11Case
 	c.Linear = rapid.Bool().Draw(t, "linear")
 	c.HTTP = rapid.IntRange(0, 2).Draw(t, "http") == 0
+	c.Check = rapid.IntRange(0, 2).Draw(t, "check") == 0
+	c.TTL = rapid.SampledFrom([]int{0, 0, 1, 2}).Draw(t, "ttl")
 	nc := rapid.IntRange(2, 8).Draw(t, "nclients")
 	for i := 0; i < nc; i++ {
 		n := rapid.IntRange(2, 9).Draw(t, fmt.Sprintf("c%d.n", i))
 		var ops []c12Op
+		ghost := c.Check && rapid.IntRange(0, 3).Draw(t, fmt.Sprintf("c%d.ghost", i)) == 0
+		c.Ghost = append(c.Ghost, ghost)
+		if c.Check && !ghost {
+			ops = append(ops, c12Op{K: "create"})
+		}
 		for j := 0; j < n; j++ {
 			l := fmt.Sprintf("c%d.o%d", i, j)
 			k := rapid.SampledFrom([]string{"addFact", "addFact", "addFact", "remFact", "getFact", "search", "addRule", "remRule", "disable", "enable", "event", "event"}).Draw(t, l+".k")
@@ -67,12 +81,19 @@ type c11Engine struct {
 	hs *service.HTTPService
 }
 
-func newC11Engine(linear bool) (*c11Engine, error) {
+func newC11Engine(linear, check bool, ttl int) (*c11Engine, error) {
 	conf := sys.ExampleConfig()
 	conf.UnindexedState = linear
+	conf.CheckExistence = check
 	cont := sys.ExampleSystemControl()
 	cont.Timing = false
 	cont.LocationTTL = sys.Forever
+	switch ttl {
+	case 1:
+		cont.LocationTTL = sys.Never
+	case 2:
+		cont.LocationTTL = time.Millisecond
+	}
 	cont.DefaultLocControl = quietControl()
 	s, err := sys.NewSystem(newCtx(), *conf, *cont, nullCron{})
 	if err != nil {
@@ -84,6 +105,13 @@ func newC11Engine(linear bool) (*c11Engine, error) {
 
 // do performs one request for a location and renders the result.
 func (e *c11Engine) do(http bool, loc string, x c12Op, v string) string {
+	if x.K == "create" {
+		created, err := e.s.CreateLocation(newCtx(), loc)
+		if err != nil {
+			return "error: " + err.Error()
+		}
+		return fmt.Sprint(created)
+	}
 	if http {
 		return e.doHTTP(loc, x, v)
 	}
@@ -244,7 +272,7 @@ func runC11(c c11Case) *vlib.Outcome {
 	wantStore := make([]map[string]string, len(c.Clients))
 	writes := 0
 	for ci, ops := range c.Clients {
-		e, err := newC11Engine(c.Linear)
+		e, err := newC11Engine(c.Linear, c.Check, c.TTL)
 		if err != nil {
 			o.Fail("ENGINE", "%v", err)
 			return o
@@ -268,9 +296,16 @@ func runC11(c c11Case) *vlib.Outcome {
 		if n5 >= 3 {
 			o.NonTrivial = true
 		}
+		for _, g := range c.Ghost {
+			if g {
+				o.Label("ghost-client")
+				break
+			}
+		}
+		o.Label(fmt.Sprintf("ttl-%d", c.TTL))
 	}
 	// concurrent run on one engine
-	e, err := newC11Engine(c.Linear)
+	e, err := newC11Engine(c.Linear, c.Check, c.TTL)
 	if err != nil {
 		o.Fail("ENGINE", "%v", err)
 		return o
